@@ -27,7 +27,7 @@ FOREIGN = {
     "C05": [("C05X", r"^C05:"), ("C07H", r"^C05:"), ("C13", r":handler-calls-[02-9]")],  # "exactly once" also with thread-local and global handlers registered together
     "C06": [("C06X", r"^C06:"), ("C15", r":no-space-accepted|:wrong-characters|:wrong-count"), ("C06B", r"^C06:")],
     "C07": [("C06B", r"^C07:")],
-    "C08": [("C08X", r"^C08:"), ("C15", r":stale-slack")],
+    "C08": [("C08X", r"^C08:"), ("C15", r":stale-slack|:not-terminated")],
 }
 
 def foreign_campaigns(prop, tier):
@@ -117,6 +117,15 @@ def main():
     if a.prop not in PROPS:
         print("unknown property", a.prop)
         sys.exit(2)
-    sys.exit(PROPS[a.prop](a.tier, a.dev))
+    try:
+        rc = PROPS[a.prop](a.tier, a.dev)
+    except SystemExit:
+        raise
+    except BaseException as e:  # a failure of the machinery is never a verdict: exit 2, no VIOLATION line
+        import traceback
+        traceback.print_exc()
+        print("BROKEN: the check itself failed (%s: %s); nothing was decided" % (type(e).__name__, str(e).splitlines()[0][:200] if str(e) else ""))
+        sys.exit(2)
+    sys.exit(rc)
 
 main()
